@@ -57,6 +57,7 @@ func (t *T0x1210) Parse(jtMsg *jt808.JTMessage) error {
 		return protocol.ErrBodyLengthInconsistency
 	}
 	cursor := idLen
+	t.TerminalID = ""
 	if idLen > 0 {
 		t.TerminalID = string(bytes.Trim(body[0:cursor], "\x00"))
 	}
